@@ -199,7 +199,25 @@ fn arb_family_case() -> BoxedStrategy<(String, RV)> {
         RV::Tuple(v)
     });
     let nums = proptest::collection::vec(num(), 1..5).prop_map(RV::Tuple);
+    // contains / contains_any: needles drawn from the haystack, from other scalars, and from the
+    // forbidden shapes (nested tuple, empty value) in every position
+    let hay_elem = || prop_oneof![
+        3 => (0i64..4).prop_map(RV::Int),
+        1 => select(vec![RV::Float(1.0), RV::Float(f64::NAN), RV::Str("a".into()), RV::Bool(true), RV::Float(-0.0)]),
+    ];
+    let needle = prop_oneof![
+        5 => (0i64..5).prop_map(RV::Int),
+        2 => select(vec![RV::Float(1.0), RV::Float(f64::NAN), RV::Str("a".into()), RV::Str("b".into()), RV::Bool(true), RV::Float(0.0)]),
+        2 => Just(RV::Tuple(vec![RV::Int(1), RV::Int(2)])),
+        1 => Just(RV::Tuple(vec![])),
+        1 => Just(RV::Empty),
+    ];
+    let contains_any = (proptest::collection::vec(hay_elem(), 0..5), proptest::collection::vec(needle.clone(), 0..5))
+        .prop_map(|(h, n)| RV::Tuple(vec![RV::Tuple(h), RV::Tuple(n)]));
+    let contains = (proptest::collection::vec(hay_elem(), 0..5), needle).prop_map(|(h, n)| RV::Tuple(vec![RV::Tuple(h), n]));
     let arg = prop_oneof![
+        2 => contains_any,
+        1 => contains,
         4 => math_arg,
         3 => (num(), num()).prop_map(|(a, b)| RV::Tuple(vec![a, b])),
         2 => shift,
@@ -210,7 +228,17 @@ fn arb_family_case() -> BoxedStrategy<(String, RV)> {
         1 => (any::<bool>(), gen::arb_value(), gen::arb_value()).prop_map(|(b, x, y)| RV::Tuple(vec![RV::Bool(b), x, y])),
         1 => (gen::arb_value(), gen::arb_scalar()).prop_map(|(t, n)| RV::Tuple(vec![t, n])),
     ];
-    (select(names), arg).boxed()
+    let any_name = (select(names), arg.clone());
+    // the same arguments, aimed at the builtins they were built for
+    let aimed = (
+        select(vec![
+            "contains", "contains_any", "min", "max", "str::substring", "shl", "shr", "math::log", "math::pow", "math::atan2",
+            "math::hypot", "if", "len", "str::from", "math::abs", "bitand", "bitor", "bitxor", "round", "floor", "ceil",
+        ])
+        .prop_map(|s| s.to_string()),
+        arg,
+    );
+    prop_oneof![1 => any_name, 1 => aimed].boxed()
 }
 
 pub fn run(rep: &Report) {
